@@ -1,12 +1,19 @@
 import PhyVerif.Model.C18
 import PhyVerif.Model.C18b
+import PhyVerif.Model.C18c
 import PhyVerif.Spec.C18
+import PhyVerif.Spec.C18c
 import PhyVerif.Lemmas.C18
+import PhyVerif.Model.C18p
+import PhyVerif.Spec.C18p
+import PhyVerif.Lemmas.C18t
+import PhyVerif.Lemmas.C18p
 /-!
 # C18 — JSON, TSV/CSV and parameter-file serialisation round-trips values and types
 Only property theorems + non-vacuity examples; proofs in `Lemmas/C18.lean`.
-(`json`, `csv`, `base64`, number formatting and the Python parser are transport; the parameter-file
-round trip is exercised by the correspondence run only.)
+(`json`, `base64` and float `repr` are transport.  The `csv` module, the text layer, `int()`/`float()`,
+`'%.nf'` and the fragment of Python's parser that parameter files need are modelled in
+`Model/C18c.lean`, `Model/C18p.lean` and tied to the real code by the correspondence run.)
 -/
 namespace PhyVerif.C18
 
@@ -15,6 +22,35 @@ any dtype, rank and size, NumPy scalars): the loaded value is the canonical form
 arrays keep dtype, shape and values, 1-D arrays of at most ten items come back as equal lists. -/
 theorem value_roundtrip (v : PV) (h : WF v) : decode (encode v) = canon v :=
   Lemmas.value_roundtrip v h
+
+/-- Arrays keep dtype, shape and values for every memory layout (1): an array that is not a short 1-D
+non-complex one comes back as an array whose dtype string is the saved one (byte order included: it
+is read from the marker's `dtype` entry), whose shape is the saved one (read from the `shape` entry),
+C-contiguous, holding `np.ascontiguousarray` of the saved array.  The array is given as NumPy has it:
+(shape, strides, offset, buffer) — C order, Fortran order, transposed, strided, reversed views are
+particular strides/offsets. -/
+theorem array_roundtrip (dtype : String) (shape : List Nat) (strides : List Int) (off : Int) (mem : List Int)
+    (hbig : ∀ n, shape = [n] → (n ≤ 10 && !isComplexDtype dtype) = false) :
+    decode (encode (.arr dtype shape strides off mem)) =
+      .arr dtype shape (cStrides shape) 0 (gather mem shape strides off) :=
+  Lemmas.array_roundtrip dtype shape strides off mem hbig
+
+/-- Arrays keep … (2): element by element.  For every multi-index inside the shape, the element of
+the array that comes back equals the element of the saved array at that multi-index, for every
+(strides, offset) with one stride per axis.  (Both sides read the same buffer position of the saved
+array, so no in-bounds hypothesis is needed; a real array's positions are in bounds.) -/
+theorem array_elements_preserved (shape : List Nat) (strides : List Int) (off : Int) (mem : List Int)
+    (idx : List Nat) (hl : strides.length = shape.length) (hi : IdxOK shape idx) :
+    getAt (cStrides shape) 0 (gather mem shape strides off) idx = getAt strides off mem idx :=
+  Lemmas.array_elements_preserved shape strides off mem idx hl hi
+
+/-- One-dimensional arrays of at most ten items (non-complex dtype) come back as the list of their
+elements in index order, whatever the stride (`a[::2]`, `a[::-1]`). -/
+theorem small_array_roundtrip (dtype : String) (n : Nat) (s : Int) (off : Int) (mem : List Int)
+    (hn : n ≤ 10) (hc : isComplexDtype dtype = false) :
+    decode (encode (.arr dtype [n] [s] off mem)) =
+      .list (ofInts ((List.range n).map fun (i : Nat) => getMem mem (off + (i : Int) * s))) :=
+  Lemmas.small_array_roundtrip dtype n s off mem hn hc
 
 /-- Integer top-level keys stay integers (negative ones included), other string keys stay strings. -/
 theorem key_roundtrip (hs : IntStrOK) (k : Key) (hk : KeyOK k) : intifyKey (stringifyKey k) = k :=
@@ -82,16 +118,192 @@ theorem tsv_first_field_first (render : Cell → String) (rows : List (List (Str
     (hw : writeTsv render rows (some f) = some file) : file.1.head? = some f :=
   Lemmas.tsv_first_field_first render rows f hf file hw
 
+/-! ### table files at the character level (`Model/C18c.lean`) -/
+
+/-- The csv transport contract, proved for the model of `csv.writer(f, delimiter=d)` /
+`csv.reader(f, delimiter=d)` (QUOTE_MINIMAL, doubled quotes): a record is read back as the same
+fields for ARBITRARY field strings — the other delimiter, quotes, spaces, empty fields, one single
+empty field (written `""`), no field at all — provided the delimiter is not the quote character. -/
+theorem csv_line_roundtrip (d : Char) (hd : d ≠ '"') (fs : List Str) :
+    csvParseLine d (csvRow d fs) = fs :=
+  Lemmas.csv_line_roundtrip d hd fs
+
+/-- Whole files: records whose fields contain no line break, written with `\r\n` terminators into a
+file opened with `newline=''` and read back line by line in universal-newline mode.  (A cell
+containing `\r` is outside: the real reader turns it into `\n`, _misc.py:244 opens without
+`newline=''`; a cell containing `\n` spans two physical lines, which the line-based reader model does
+not follow.) -/
+theorem csv_file_roundtrip (d : Char) (hq : d ≠ '"') (hd : d ≠ '\r' ∧ d ≠ '\n') (rows : List (List Str))
+    (h : ∀ r ∈ rows, ∀ f ∈ r, NoBreak f) : csvRead d (csvWrite d rows) = rows :=
+  Lemmas.csv_file_roundtrip d hq hd rows h
+
+/-- `_try_make_number(str(i))` is the integer `i` (Python's `int()` grammar: whitespace, sign,
+underscores between digits). -/
+theorem try_make_number_int (i : Int) : tryMakeNumber (intToStr i) = .int i :=
+  Lemmas.tryMakeNumber_intToStr i
+
+/-- `_try_make_number('%.nf' % x)` (n ≥ 1, x a finite float ±m·2^e) is not an integer but the float
+whose decimal text was written: sign of x, `scaled n x` = |x|·10^n rounded half-even, n digits after
+the point. -/
+theorem try_make_number_fixed (n : Nat) (hn : n ≠ 0) (x : Dbl) :
+    tryMakeNumber (String.ofList (fmtFixed n x)) = .float x.neg (scaled n x) (-(n : Int)) :=
+  Lemmas.tryMakeNumber_fmtFixed n hn x
+
+/-- "float (to the written precision)": the decimal read back differs from |x| by at most half a unit
+of the last written digit (exactly equal when x is an integer). -/
+theorem written_precision (n : Nat) (x : Dbl) :
+    (0 ≤ x.e → scaled n x = x.m * 10 ^ n * 2 ^ x.e.toNat) ∧
+    (x.e < 0 →
+      2 * (scaled n x * 2 ^ (-x.e).toNat) ≤ 2 * (x.m * 10 ^ n) + 2 ^ (-x.e).toNat ∧
+      2 * (x.m * 10 ^ n) ≤ 2 * (scaled n x * 2 ^ (-x.e).toNat) + 2 ^ (-x.e).toNat) :=
+  Lemmas.written_precision n x
+
+/-- Cluster tables, end to end on the text of the file: `write_tsv` (`_pretty_floats` with n digits,
+`str`, csv writer, `\r\n`) followed by `read_tsv` (universal newlines, delimiter sniffed from the
+first line, csv reader, empty cells dropped, `_try_make_number`) returns, per written row, its
+(field, value) pairs in header order with absent fields omitted — integers as the same integers, floats
+as the written decimal, non-numeric strings (containing the other delimiter, quotes, …) as the same
+strings.  Hypotheses = the property's quantifier: cells are integers, finite floats or non-empty strings
+that `int()`/`float()` reject, without line break; field names without line break; for a `.tsv` file the
+rows use at least two field names ("two or more columns": otherwise the header holds no tab and the
+reader takes the file for comma-separated); for a `.csv` file no field name contains a tab (it would
+flip the sniffed delimiter).  n = 4 in `write_tsv`. -/
+theorem cluster_table_roundtrip (isTsv : Bool) (n : Nat) (hn : n ≠ 0) (rows : List (List (String × WCell)))
+    (first : Option String) (hD : ∀ r ∈ rows, ∀ fc ∈ r, WCellOK fc.2)
+    (hnames : ∀ f ∈ fieldsOf rows, NoBreak f.toList)
+    (htsv : isTsv = true → TwoColumns rows)
+    (hcsv : isTsv = false → ∀ f ∈ fieldsOf rows, '\t' ∉ f.toList)
+    (text : Str) (hw : writeTsvFile isTsv (renderW n) rows first = some text) :
+    ∃ file, writeTsv (renderW n) rows first = some file ∧
+      readTsvFile tryMakeNumber text = some (expectedRows file.1 (obsRows (obsW n) rows)) :=
+  Lemmas.cluster_table_roundtrip isTsv n hn rows first hD hnames htsv hcsv text hw
+
+/-- The same for any renderer / parser pair (cells of a domain `D` are rendered non-empty, without line
+break, and parsed to what `obs` says). -/
+theorem table_file_roundtrip {γ δ : Type} (isTsv : Bool) (D : γ → Prop) (render : γ → String)
+    (parse : String → δ) (obs : γ → δ)
+    (hrt : ∀ c, D c → parse (render c) = obs c) (hne : ∀ c, D c → render c ≠ "")
+    (hnb : ∀ c, D c → NoBreak (render c).toList)
+    (rows : List (List (String × γ))) (first : Option String) (hD : ∀ r ∈ rows, ∀ fc ∈ r, D fc.2)
+    (hnames : ∀ f ∈ fieldsOf rows, NoBreak f.toList)
+    (htsv : isTsv = true → TwoColumns rows)
+    (hcsv : isTsv = false → ∀ f ∈ fieldsOf rows, '\t' ∉ f.toList)
+    (text : Str) (hw : writeTsvFile isTsv render rows first = some text) :
+    ∃ file, writeTsv render rows first = some file ∧
+      readTsvFile parse text = some (expectedRows file.1 (obsRows obs rows)) :=
+  Lemmas.table_file_roundtrip isTsv D render parse obs hrt hne hnb rows first hD hnames htsv hcsv text hw
+
+/-- Two-column cluster tables with arbitrary ids: `_write_tsv_simple` followed by `_read_tsv_simple`
+returns the field name and the same dictionary (entries by increasing id; `sortById_perm`: a
+permutation of the saved entries) — integer values as integers, floats as what `float(repr(x))` reads,
+strings that are not numeric literals (the empty string included) as themselves.  Hypotheses: no line
+break in the field name and the values; in a `.csv` file no tab in the field name. -/
+theorem simple_table_roundtrip (isTsv : Bool) (field : String) (data : List (Int × SVal))
+    (hfield : NoBreak field.toList) (hcsv : isTsv = false → '\t' ∉ field.toList)
+    (hvals : ∀ p ∈ data, SValOK p.2) :
+    readTsvSimple (writeTsvSimple isTsv field data) =
+      some (field, (sortById data).map fun p => (p.1, obsS p.2)) :=
+  Lemmas.simple_table_roundtrip isTsv field data hfield hcsv hvals
+
+theorem sortById_perm {α : Type} (l : List (Int × α)) : (sortById l).Perm l :=
+  Lemmas.sortById_perm l
+
+/-- `save_metadata` (= `_write_tsv_simple`) followed by `load_metadata` (= the cluster-table reader
+`read_tsv` + regrouping by field, phylib/io/model.py:118-141) returns {field: {cluster_id: value}} with
+the saved entries.  Beyond the hypotheses of `simple_table_roundtrip`: the ids are distinct (a
+dictionary), the field is not called `cluster_id`, and no value is the empty string — `read_tsv` drops
+empty cells, so such an entry is lost (and a table holding only empty values loads as `{}`). -/
+theorem metadata_roundtrip (isTsv : Bool) (field : String) (data : List (Int × SVal))
+    (hfield : NoBreak field.toList) (hcsv : isTsv = false → '\t' ∉ field.toList) (hne : field ≠ "cluster_id")
+    (hvals : ∀ p ∈ data, SValOK p.2 ∧ renderS p.2 ≠ "") (hids : (data.map (·.1)).Nodup) :
+    loadMetadata (writeTsvSimple isTsv field data) =
+      some (if data = [] then [] else [(field, (sortById data).map fun p => (Num.int p.1, obsS p.2))]) :=
+  Lemmas.metadata_roundtrip isTsv field data hfield hcsv hne hvals hids
+
+/-- Parameter files: `write_python` followed by `read_python` returns the dictionary that was written,
+with the variable names lower-cased — None, booleans, integers, floats (as `float(repr(x))`), strings,
+and lists / tuples (empty, one element `(x,)`, several) of those.  Hypotheses = the domain on which
+the real code round-trips: names are ASCII identifiers that are not keywords and stay distinct when
+lower-cased (real code: `{'Up': 1, 'up': 2}` reads back as `{'up': 2}`); a TOP-LEVEL string contains
+no double quote, backslash or line break (it is written `"%s" % v`, not `repr`: real code raises
+SyntaxError or returns another string); floats are finite (`inf`/`nan` are written as names: NameError).
+Strings inside lists / tuples are arbitrary (quotes, backslashes, tabs, line breaks: `repr` escapes them). -/
+theorem params_roundtrip (d : List (String × PVal)) (hk : ∀ kv ∈ d, ParamKeyOK kv.1)
+    (hnd : (d.map fun kv => kv.1.toLower).Nodup) (hv : ∀ kv ∈ d, PValOK kv.2) :
+    readPython (writePython d) = some (d.map fun kv => (kv.1.toLower, kv.2)) :=
+  Lemmas.params_roundtrip d hk hnd hv
+
 /-! Non-vacuity -/
-example : decode (encode (.arr "int32" [3] [1, 2, 3])) = .list (.cons (.int 1) (.cons (.int 2) (.cons (.int 3) .nil))) := by
-  have hc : isComplexDtype "int32" = false := by decide
-  simp [encode, decode, decodeList, ofInts, hc]
-example : decode (encode (.list (.cons (.arr ">f4" [2, 2] [1, 2, 3, 4]) (.cons (.npScalar 7) .nil)))) =
-    .list (.cons (.arr ">f4" [2, 2] [1, 2, 3, 4]) (.cons (.int 7) .nil)) := by
-  simp [encode, encodeList, decode, decodeList, marker, findArr]
+-- a parameter file as phy writes it
+example : writePython [("dat_path", .list [.str "a.dat", .str "it's"]), ("n_channels_dat", .scalar (.int 384)),
+      ("dtype", .scalar (.str "int16")), ("sample_rate", .scalar (.float "30000.0")),
+      ("hp_filtered", .scalar (.bool false)), ("Shape", .tuple [.int 1])] =
+    "dat_path = ['a.dat', \"it's\"]\nn_channels_dat = 384\ndtype = \"int16\"\nsample_rate = 30000.0\nhp_filtered = False\nShape = (1,)\n".toList := by
+  decide +kernel
+example : readPython "dat_path = ['a.dat', \"it's\"]\nn_channels_dat = 384\ndtype = \"int16\"\nsample_rate = 30000.0\nhp_filtered = False\nShape = (1,)\n".toList =
+    some [("dat_path", .list [.str "a.dat", .str "it's"]), ("n_channels_dat", .scalar (.int 384)),
+      ("dtype", .scalar (.str "int16")), ("sample_rate", .scalar (.float "30000.0")),
+      ("hp_filtered", .scalar (.bool false)), ("shape", .tuple [.int 1])] := by decide +kernel
+example : PScalarOK (.float "30000.0") ∧ PScalarOK (.float "1e-05") ∧ PScalarOK (.float "-2.5") ∧
+    ¬ PScalarOK (.float "inf") ∧ ParamKeyOK "n_channels_dat" ∧ ¬ ParamKeyOK "class" ∧ ¬ ParamKeyOK "2x" := by
+  refine ⟨⟨by decide, by decide, by decide, by decide +kernel⟩, ⟨by decide, by decide, by decide, by decide +kernel⟩,
+    ⟨by decide, by decide, by decide, by decide +kernel⟩, ?_, by decide +kernel, by decide +kernel, by decide +kernel⟩
+  intro h; exact absurd h.2.2.2 (by decide +kernel)
+-- what the hypotheses exclude: a top-level string with a backslash or a quote is not read back
+example : readPython (writePython [("p", .scalar (.str "C:\\data"))]) = none ∧
+    readPython (writePython [("p", .scalar (.str "say \"hi\""))]) = none := by decide +kernel
+-- a .tsv cluster table: int / float / text with the other delimiter, quotes and a tab; an absent field
+example : (writeTsvFile true (renderW 4)
+      [[("cluster_id", .int 0), ("group", .text "good"), ("amp", .float ⟨true, 5404319552844595, -52⟩)],
+       [("group", .text "a\tb, \"c\""), ("cluster_id", .int (-3))]] (some "cluster_id")) =
+    some "cluster_id\tamp\tgroup\r\n0\t-1.2000\tgood\r\n-3\t\t\"a\tb, \"\"c\"\"\"\r\n".toList := by decide
+example : readTsvFile tryMakeNumber
+      "cluster_id\tamp\tgroup\r\n0\t-1.2000\tgood\r\n-3\t\t\"a\tb, \"\"c\"\"\"\r\n".toList =
+    some [[("cluster_id", .int 0), ("amp", .float true 12000 (-4)), ("group", .text "good")],
+          [("cluster_id", .int (-3)), ("group", .text "a\tb, \"c\"")]] := by decide +kernel
+example : WCellOK (.text "a\tb, \"c\"") ∧ WCellOK (.text "good") ∧ WCellOK (.text "1e") ∧
+    ¬ NonNumeric "1e5" ∧ ¬ NonNumeric " 12 " ∧ ¬ NonNumeric "nan" := by
+  refine ⟨⟨⟨by decide, by decide⟩, by decide⟩, ⟨⟨by decide, by decide⟩, by decide⟩,
+    ⟨⟨by decide, by decide⟩, by decide⟩, ?_, ?_, ?_⟩ <;> (intro h; exact absurd h.2 (by decide))
+example : TwoColumns [[("cluster_id", WCell.int 0), ("group", .text "good")]] :=
+  ⟨"cluster_id", "group", by decide, by simp [fieldsOf], by simp [fieldsOf]⟩
+-- one column in a .tsv file: the header holds no tab, the file is read as comma-separated
+example : (writeTsvFile true (renderW 4) [[("a", .text "x,y")]] none).bind (readTsvFile tryMakeNumber) =
+    some [[("a", .text "x")]] := by decide
+-- '%.4f': ties go to the even digit (0.03125 -> 0.0312, 0.09375 -> 0.0938), -0.0 keeps its sign
+example : fmtFixed 4 ⟨false, 1, -5⟩ = "0.0312".toList ∧ fmtFixed 4 ⟨false, 3, -5⟩ = "0.0938".toList ∧
+    fmtFixed 4 ⟨true, 0, 0⟩ = "-0.0000".toList ∧ fmtFixed 4 ⟨false, 123, 0⟩ = "123.0000".toList := by decide
+-- a two-column .csv table
+example : writeTsvSimple false "group" [(3, .text "a,b"), (-1, .int 5), (2, .float "0.25")] =
+    "cluster_id,group\r\n-1,5\r\n2,0.25\r\n3,\"a,b\"\r\n".toList ∧
+    readTsvSimple "cluster_id,group\r\n-1,5\r\n2,0.25\r\n3,\"a,b\"\r\n".toList =
+      some ("group", [(-1, .int 5), (2, .float false 25 (-2)), (3, .text "a,b")]) := by decide
+example : loadMetadata (writeTsvSimple true "group" [(3, .text "good"), (-1, .text "mua"), (2, .text "")]) =
+    some [("group", [(.int (-1), .text "mua"), (.int 3, .text "good")])] := by decide +kernel
+example : FloatLit "30000.0" ∧ FloatLit "1e-05" ∧ FloatLit "-2.5" :=
+  ⟨⟨false, 300000, -1, by decide⟩, ⟨false, 1, -5, by decide⟩, ⟨true, 25, -1, by decide⟩⟩
+example : csvParseLine ',' (csvRow ',' ["a,b".toList, [], "q\"r".toList]) = ["a,b".toList, [], "q\"r".toList] ∧
+    csvRow ',' [[]] = "\"\"".toList ∧ csvParseLine ',' [] = [] := by decide
+example : decode (encode (.arr "int32" [3] [1] 0 [1, 2, 3])) = .list (.cons (.int 1) (.cons (.int 2) (.cons (.int 3) .nil))) := by
+  rfl
+-- a reversed view `a[::-1]` of a buffer of 3 items
+example : decode (encode (.arr "int32" [3] [-1] 2 [1, 2, 3])) = .list (.cons (.int 3) (.cons (.int 2) (.cons (.int 1) .nil))) := by
+  rfl
+-- a Fortran-ordered 2x3 array (strides 1, 2) inside a list, big-endian dtype: comes back C-contiguous
+-- with the same shape and dtype, elements in row-major order
+example : decode (encode (.list (.cons (.arr ">f4" [2, 3] [1, 2] 0 [10, 20, 11, 21, 12, 22]) (.cons (.npScalar 7) .nil)))) =
+    .list (.cons (.arr ">f4" [2, 3] [3, 1] 0 [10, 11, 12, 20, 21, 22]) (.cons (.int 7) .nil)) := by
+  rfl
+-- the hook reads dtype and shape from the marker: other entries give another array
+example : decode (.dict (.cons "__ndarray__" (.payload "int16" [1, 2, 3, 4, 5, 6])
+      (.cons "dtype" (.str "int16") (.cons "shape" (.list (ofNats [3, 2])) .nil)))) =
+    .arr "int16" [3, 2] [2, 1] 0 [1, 2, 3, 4, 5, 6] := by rfl
+example : IdxOK [2, 3] [1, 2] ∧ getAt [1, 2] 0 [10, 20, 11, 21, 12, 22] [1, 2] = 22 ∧
+    getAt (cStrides [2, 3]) 0 (gather [10, 20, 11, 21, 12, 22] [2, 3] [1, 2] 0) [1, 2] = 22 :=
+  ⟨by simp [IdxOK], by decide, by decide⟩
 example : intifyKey (stringifyKey (.int (-1))) = .int (-1) := by decide
 example : intifyKey (stringifyKey (.str "12")) = .int 12 := by decide     -- why digit strings are out of scope
-example : writeTsv (fun c => match c with | .int i => toString i | .float t => s!"f{t}" | .text s => s)
+example : writeTsv (fun (c : Cell) => match c with | .int i => toString i | .float t => s!"f{t}" | .text s => s)
     [[("id", .int 3), ("b", .text "x")], [("a", .float 1), ("id", .int 4)]] (some "id") =
     some (["id", "a", "b"], [["3", "", "x"], ["4", "f1", ""]]) := by decide
 -- the concrete `str` / `_try_make_number` pair: int column + label column, some fields absent
